@@ -1,14 +1,15 @@
 #!/bin/bash
-# run every stored seed (/verif/seeded/Cxx-k/patch.diff) against its property's quick check;
-# results appended to build/seedruns/summary.txt (seeds already listed there are skipped)
+# run every stored seed (/verif/seeded/Cxx-k/patch.diff) against its property's quick check (or the checks
+# named in meta.json "checks"); results appended to build/seedruns/summary.txt (seeds already listed are skipped)
 mkdir -p /verif/build/seedruns
-for d in /verif/seeded/C*-${SEED_GLOB:-*}; do
+for d in /verif/seeded/${PROP_GLOB:-C*}-${SEED_GLOB:-*}; do
   name=$(basename $d); p=${name%%-*}
   [ -f $d/patch.diff ] || continue
   grep -q "^$name " /verif/build/seedruns/summary.txt 2>/dev/null && continue
-  out=$(/verif/tools/try_seed.sh $name $d/patch.diff $p 2>&1)
+  props=$(/venv/bin/python -c "import json,sys; print(' '.join(json.load(open('$d/meta.json')).get('checks',['$p'])))" 2>/dev/null || echo $p)
+  out=$(/verif/tools/try_seed.sh $name $d/patch.diff $props 2>&1)
   suite=$(echo "$out" | grep -E "passed|failed" | head -1)
   nviol=$(echo "$out" | grep -c "^VIOLATION")
-  line=$(echo "$out" | grep "theorems" | head -1)
+  line=$(echo "$out" | grep "theorems" | tr '\n' ' ' | cut -c1-600)
   echo "$name suite=[$suite] violations=$nviol :: $line" >> /verif/build/seedruns/summary.txt
 done
